@@ -50,6 +50,10 @@ class Chemistry(Fittable, Logger, Writeable, Citable):
             self._avail_active = OpacityCache().find_list_of_molecules()
         #self._avail_active = OpacityCache().find_list_of_molecules()
         deactive_list = GlobalCache()['deactive_molecules']
+        if isinstance(deactive_list, str):
+            # a single molecule given in an input file arrives as a bare
+            # string; it names that molecule, not every name contained in it
+            deactive_list = [deactive_list]
         if deactive_list is not None:
             self._avail_active = [k for k in self._avail_active if k not in deactive_list]
 
